@@ -437,11 +437,12 @@ pub fn strip_ansi(b: &[u8]) -> Vec<u8> {
     out
 }
 
-const ENV_KEYS: [&str; 14] = [
-    "LANG", "LC_ALL", "TZ", "HOME", "USER", "TERM", "NO_COLOR", "CLICOLOR_FORCE", "RUST_LOG", "CARGO_MANIFEST_DIR", "TMPDIR", "COLUMNS",
-    "RUST_BACKTRACE_VERIF_IGNORED", "PDL_DEBUG",
+const ENV_KEYS: [&str; 34] = [
+    "LANG", "LC_ALL", "LC_COLLATE", "LC_NUMERIC", "TZ", "HOME", "USER", "LOGNAME", "HOSTNAME", "SHELL", "PWD", "OLDPWD", "PATH", "TERM", "NO_COLOR",
+    "CLICOLOR_FORCE", "FORCE_COLOR", "COLUMNS", "CI", "DEBUG", "VERBOSE", "RUST_LOG", "RUST_BACKTRACE_VERIF_IGNORED", "RUSTFLAGS", "CARGO_MANIFEST_DIR",
+    "CARGO_PKG_VERSION", "OUT_DIR", "PROFILE", "TMPDIR", "XDG_CONFIG_HOME", "SOURCE_DATE_EPOCH", "PDL_DEBUG", "PDLC_OPTIONS", "PDL_PATH",
 ];
-const ENV_VALS: [&str; 10] = ["", "1", "0", "C", "en_US.UTF-8", "xterm-256color", "dumb", "/nonexistent", "Europe/Paris", "always"];
+const ENV_VALS: [&str; 14] = ["", "1", "0", "C", "en_US.UTF-8", "tr_TR.UTF-8", "xterm-256color", "dumb", "/nonexistent", "/tmp", "Europe/Paris", "always", "315532800", "true"];
 
 /// Swarm-style draw of the perturbation vector.
 pub fn draw_perturb(rng: &mut Rng, backend: Backend, ref_out: &ProcOut) -> Perturb {
@@ -462,7 +463,7 @@ pub fn draw_perturb(rng: &mut Rng, backend: Backend, ref_out: &ProcOut) -> Pertu
         p.pid = rng.range(2, 4_000_000) as i32;
     }
     if on(3) {
-        let n = rng.range(1, 6);
+        let n = rng.range(1, 10);
         for _ in 0..n {
             let k = rng.pick(&ENV_KEYS).to_string();
             let v = rng.pick(&ENV_VALS).to_string();
